@@ -38,7 +38,7 @@ NAMES = [f"{n}{s}" for s in ("", "Info", "List", "2") for n in S.PLAIN_NAMES]
 # nillable stays off: an element that is nil in one sample and has a value in another is generated as `None | <empty class> | value`
 # and the value is lost (recorded finding xml-nil-in-one-sample-value-in-another)
 XOPTS = S.Opts(global_names=True, name_pool=NAMES, builtins=sorted(S.CANONICAL), simple_types=False, extension=False, wildcards=False,
-               defaults=False, fixed=False, anon_root=True, mixed=True, mixed_odds=5, nillable=False)
+               defaults=False, fixed=False, anon_root=True, mixed=True, mixed_odds=5, nillable=False, recursion=False)
 STRICT = dict(fail_on_unknown_properties=True, fail_on_unknown_attributes=True, fail_on_converter_warnings=True)
 
 
@@ -70,13 +70,13 @@ def xml_cases(draw):
         root = S.InstanceGen(draw, spec, canonical=True).document()
         etree.cleanup_namespaces(root)
         docs.append(etree.tostring(root, encoding="unicode"))
-    # an element that has children or attributes in one place is never completely empty in another: such an element is a text field here and a
+    # an element that has child elements in one place always has some (recorded findings: empty / text-only / attribute-only elsewhere): such an element is a text field here and a
     # class there, and its children come out required (recorded finding xml-element-empty-in-some-samples)
-    with_children, empty = set(), set()
+    kids, attrs_only, text_only, bare = set(), set(), set(), set()
     for d in docs:
         for el in etree.fromstring(d.encode()).iter():
-            (with_children if len(el) or el.attrib else empty if not (el.text or "").strip() else set()).add(el.tag)
-    assume(not (with_children & empty))
+            (kids if len(el) else attrs_only if el.attrib else text_only if (el.text or "").strip() else bare).add(el.tag)
+    assume(not (kids & (attrs_only | text_only | bare)) and not (attrs_only & (text_only | bare)))
     # element order is compared for a single sample, or when the model leaves the greedy sample-by-sample merge of field orders no
     # choice (recorded finding xml-field-order-merged-greedily otherwise)
     ordered = not repeated_groups(spec) and (len(docs) == 1 or order_reproducible(spec))
